@@ -317,3 +317,88 @@ def run(rep, tier):
                 rep.bad("R13.6", meth, "%s is not %s over transform.apply" % (meth, mc))
     except KeyError as e:
         rep.bad("R13.6", "anchor", str(e))
+    origin_traits(rep, F)
+
+
+def origin_traits(rep, F):
+    """R13.7: Rotate / Scale / Skew / Translate hand the documented matrix about the documented origin to affine_transform; every _mut twin
+    performs the same call on affine_transform_mut / its own _mut sibling with the same arguments."""
+    from .c01 import opaque, calls_of
+    from ..symex import bare
+    rep.rule("R13.7", "Rotate/Scale/Skew/Translate: *_around_point = affine_transform(AffineTransform::X(args, point)); centroid / bounding-rect-centre forms delegate to it with that origin "
+                      "(identity when there is none); scale/skew = *_xy(v, v); every *_mut twin makes the same call on the _mut sibling")
+    spec = {
+        "geo::algorithm::rotate::Rotate": {
+            "rotate_around_point": [("", r"^affine_transform\(a1, rotate\(a2, a3\)\)$")],
+            "rotate_around_centroid": [("=0", r"^a1$"), ("=1", r"^rotate_around_point\(a1, a2, \(into\(centroid\(a1\)\) as Some\)\.0\)$")],
+            "rotate_around_center": [("=0", r"^a1$"), ("=1", r"^rotate_around_point\(a1, a2, Point::Point\(center\(\(into\(bounding_rect\(a1\)\) as Some\)\.0\)\)\)$")],
+        },
+        "geo::algorithm::scale::Scale": {
+            "scale": [("", r"^scale_xy\(a1, a2, a2\)$")],
+            "scale_xy": [("=0", r"^a1$"), ("=1", r"^scale_around_point\(a1, a2, a3, center\(\(into\(bounding_rect\(a1\)\) as Some\)\.0\)\)$")],
+            "scale_around_point": [("", r"^affine_transform\(a1, scale\(a2, a3, a4\)\)$")],
+        },
+        "geo::algorithm::skew::Skew": {
+            "skew": [("", r"^skew_xy\(a1, a2, a2\)$")],
+            "skew_xy": [("=0", r"^a1$"), ("=1", r"^skew_around_point\(a1, a2, a3, center\(\(into\(bounding_rect\(a1\)\) as Some\)\.0\)\)$")],
+            "skew_around_point": [("", r"^affine_transform\(a1, skew\(a2, a3, a4\)\)$")],
+        },
+        "geo::algorithm::translate::Translate": {
+            "translate": [("", r"^affine_transform\(a1, translate\(a2, a3\)\)$")],
+        },
+    }
+    n = 0
+    for tr, meths in spec.items():
+        ims = [im for im in F.impls_of(tr) if im["crate"] == "geo"]
+        if len(ims) != 1:
+            rep.bad("R13.7", "impls:" + tr.split("::")[-1], "%d impls of %s (expected the one blanket impl)" % (len(ims), tr))
+            continue
+        im = ims[0]
+        for m, rows in meths.items():
+            key = "%s::%s" % (tr.split("::")[-1], m)
+            try:
+                fn = F.impl_fn(im, m)
+                fm = F.impl_fn(im, m + "_mut")
+                if fn is None or fm is None:
+                    raise KeyError("method %s / %s_mut not found" % (m, m))
+                ps = [p for p in opaque(F, loop_bound=1).run(fn) if p.kind == "ret"]
+                pm = [p for p in opaque(F, loop_bound=1).run(fm) if p.kind == "ret"]
+            except (KeyError, Unanalysable) as e:
+                rep.bad("R13.7", key + ":anchor", str(e))
+                continue
+            n += 1
+            bad = None
+            if len(ps) != len(rows) or len(pm) != len(rows):
+                bad = "%d / %d result paths, expected %d" % (len(ps), len(pm), len(rows))
+            else:
+                for (suffix, pat) in rows:
+                    sel = [p for p in ps if show_pc(p.pc).endswith(suffix)] if suffix else ps
+                    selm = [p for p in pm if show_pc(p.pc).endswith(suffix)] if suffix else pm
+                    if len(sel) != 1 or len(selm) != 1:
+                        bad = "guard not recognised"
+                        break
+                    r = bare(sel[0].ret)
+                    if not re.match(pat, r):
+                        bad = "%s returns %s" % (m, r[:120])
+                        break
+                    # the _mut twin: its last geo call is the same call on the _mut sibling (identity path: no call)
+                    cs = [c for c in calls_of(selm[0]) if re.search(r"(affine_transform_mut|_mut)$", c[1])]
+                    if pat == r"^a1$":
+                        if cs:
+                            bad = "%s_mut transforms although there is no origin" % m
+                            break
+                        continue
+                    if not cs:
+                        bad = "%s_mut makes no call to a _mut sibling" % m
+                        break
+                    last = cs[-1]
+                    twin = "%s(%s)" % (last[1].rsplit("::", 1)[-1], ", ".join(bare(a) for a in last[2]))
+                    want = re.sub(r"^(\w+)\(", lambda z: z.group(1) + "_mut(", r, count=1)
+                    if twin != want:
+                        bad = "%s_mut calls %s but %s returns %s" % (m, twin[:100], m, r[:100])
+                        break
+            if bad:
+                rep.bad("R13.7", key, bad, where=fn.loc())
+            else:
+                rep.ok("R13.7", key)
+    rep.floor("R13.7", "trait methods", n, 10)
